@@ -86,11 +86,13 @@ def grid_oracles(ctx, sc, tag):
             nat = rec.get("t_native", t)[len(prev_t) - 1:]
             mono = all((y - x) * d > 0 for x, y in zip(nat, nat[1:]))
             ctx.oracle("strictly-monotone", mono, inp, what="recorded times not strictly monotone toward the target: %s" % (new[:8],))
-            ulp = 8 * float(max(np.spacing(sc.dtype(abs(target))), np.spacing(sc.dtype(abs(start)))))
-            ctx.oracle("no-overshoot", all((target - x) * d >= -ulp for x in new), inp, what="a recorded time overshoots the target %r: %s" % (target, new[-3:]))
+            # in the precision of the run: the target as the system was given it (a longdouble target need not be a float)
+            target_n = sc.dtype(op[1] if op[1] is not None else tf_sys)
+            ulp = 8 * max(np.spacing(abs(target_n)), np.spacing(abs(nat[0])))
+            ctx.oracle("no-overshoot", all((target_n - x) * sc.dtype(d) >= -ulp for x in nat), inp, what="a recorded time overshoots the target %r: %s" % (target, new[-3:]))
             if abs(target - start) >= 4 * float(fin.eps):
-                ctx.oracle("ends-at-target", abs(new[-1] - target) <= max(ulp, 32 * float(fin.eps)), inp,
-                           what="last recorded time %r is not the target %r" % (new[-1], target))
+                ctx.oracle("ends-at-target", abs(nat[-1] - target_n) <= max(ulp, 32 * fin.eps), dict(inp, end_minus_target=float(nat[-1] - target_n)),
+                           what="last recorded time %r is not the target %r (difference %.3e)" % (new[-1], target, float(nat[-1] - target_n)))
             if len(new) > 2:
                 ctx.nontrivial((sc.method.__name__, str(sc.ops)))
         if op[0] == "reset":
@@ -109,7 +111,7 @@ def contract_oracle(ctx, sc):
 def run(ctx):
     rng = ctx.rng
     names = METHODS_QUICK if ctx.quick() else [c.__name__ for c in I.explicit_methods() + I.implicit_methods() if c.__name__ not in ("RadauIIA19", "RK1412Solver")]
-    nsc = 400 if ctx.quick() else 4000
+    nsc = 400 if ctx.quick() else 1500
     scs, lines = [], []
     for i in range(nsc):
         name = names[i % len(names)]
@@ -145,6 +147,11 @@ def run(ctx):
     for T in (np.float32, np.longdouble):
         for i in range(6 if ctx.quick() else 60):
             pat, dtk, ops = gen_ops(rng)
+            if T is np.longdouble and i % 2 == 0:
+                # times that are NOT representable in float64: the targets keep their extra bits all the way through
+                wide = lambda v: None if v is None else np.longdouble(v) * (np.longdouble(1) + np.longdouble(2) ** -58) + np.longdouble(2) ** -62
+                ops = [("new", wide(o[1]), wide(o[2]), o[3]) if o[0] == "new" else (("int", wide(o[1]), o[2]) if o[0] == "int" else (("settf", wide(o[1])) if o[0] == "settf" else o)) for o in ops]
+                ctx.count("dtype:float128:targets-beyond-float64")
             sc = loopsim.Scenario(I.RK4Solver, ops, dtype=T)
             try:
                 sc.run_impl()
